@@ -1,4 +1,4 @@
-CONSTANTS Reqs = {1,2,3} Notifs = {1,2,3,4} MaxRetries = 2 MaxTicks = 3 SendMayFail = TRUE SendMayBlock = TRUE Fix24 = TRUE Fix25 = TRUE SimDepth = 0
+CONSTANTS Reqs = {1,2,3} Notifs = {1,2,3,4} MaxRetries = 2 MaxTicks = 3 SendMayFail = TRUE SendMayBlock = TRUE Fix24 = TRUE Fix25 = TRUE SimDepth = 0 MayClose = TRUE
 INIT Init
 NEXT Next
 CONSTRAINT Dump
